@@ -138,6 +138,24 @@ func init() {
 				}
 				g.emit("pair", hxs(a), hxs(b))
 			}
+			// a metric holding 1-5 distinct tuples is declared again, as a reload does
+			for i := 0; i < 24; i++ {
+				ar := 1 + i%3
+				n := 1 + i%5
+				seenT := map[string]bool{}
+				var ts []string
+				for len(ts) < n {
+					t := make([]string, ar)
+					for j := range t {
+						t[j] = g.r.pick(small)
+					}
+					if k := hxs(t); !seenT[k] {
+						seenT[k] = true
+						ts = append(ts, k)
+					}
+				}
+				g.emit(append([]string{"readd"}, ts...)...)
+			}
 			// the same new tuple looked up by several goroutines at once
 			nc, rounds := 12, 300
 			if g.thorough() {
@@ -215,8 +233,97 @@ func c08Conc(t []string, workers, rounds int) (n, distinct int, sum int64) {
 	return
 }
 
+// c08Readd: a metric holding several tuples is declared again (what a program reload does through
+// Store.Add); the tuples carried over must still name distinct data with their own values.
+func c08Readd(tuples [][]string) []string {
+	if len(tuples) == 0 {
+		return nil
+	}
+	keys := make([]string, len(tuples[0]))
+	for i := range keys {
+		keys[i] = fmt.Sprintf("k%d", i)
+	}
+	s := metrics.NewStore()
+	m1 := metrics.NewMetric("m", "p", metrics.Gauge, metrics.Int, keys...)
+	for i, t := range tuples {
+		d, err := m1.GetDatum(t...)
+		if err != nil {
+			return []string{"GetDatum: " + err.Error()}
+		}
+		datum.SetInt(d, int64(i+1), time.Unix(1000+int64(i), 0))
+	}
+	if err := s.Add(m1); err != nil {
+		return []string{"Add: " + err.Error()}
+	}
+	m2 := metrics.NewMetric("m", "p", metrics.Gauge, metrics.Int, keys...)
+	if err := s.Add(m2); err != nil {
+		return []string{"second Add: " + err.Error()}
+	}
+	var cur *metrics.Metric
+	_ = s.Range(func(m *metrics.Metric) error {
+		if m.Name == "m" {
+			cur = m
+		}
+		return nil
+	})
+	if cur == nil {
+		return []string{"the metric is gone after the second Add"}
+	}
+	var bad []string
+	seen := map[datum.Datum]int{}
+	for i, t := range tuples {
+		lv := cur.FindLabelValueOrNil(t)
+		if lv == nil {
+			bad = append(bad, fmt.Sprintf("tuple %s is lost", hxs(t)))
+			continue
+		}
+		if !eqTuple(lv.Labels, t) {
+			bad = append(bad, fmt.Sprintf("tuple %s finds the label value of %s", hxs(t), hxs(lv.Labels)))
+		}
+		if v := datum.GetInt(lv.Value); v != int64(i+1) {
+			bad = append(bad, fmt.Sprintf("tuple %s holds %d, was %d", hxs(t), v, i+1))
+		}
+		if j, dup := seen[lv.Value]; dup {
+			bad = append(bad, fmt.Sprintf("tuples %s and %s share one datum", hxs(tuples[j]), hxs(t)))
+		}
+		seen[lv.Value] = i
+	}
+	if len(bad) == 0 && len(tuples) >= 2 {
+		// writing, expiring and deleting the first tuple leaves the second alone
+		d0, _ := cur.GetDatum(tuples[0]...)
+		datum.SetInt(d0, 99, time.Unix(2000, 0))
+		_ = cur.ExpireDatum(7*time.Second, tuples[0]...)
+		lv1 := cur.FindLabelValueOrNil(tuples[1])
+		if lv1 == nil || datum.GetInt(lv1.Value) != 2 || lv1.Expiry != 0 {
+			bad = append(bad, fmt.Sprintf("writing and expiring %s changed %s", hxs(tuples[0]), hxs(tuples[1])))
+		}
+		_ = cur.RemoveDatum(tuples[0]...)
+		if lv1 := cur.FindLabelValueOrNil(tuples[1]); lv1 == nil || datum.GetInt(lv1.Value) != 2 {
+			bad = append(bad, fmt.Sprintf("deleting %s removed or changed %s", hxs(tuples[0]), hxs(tuples[1])))
+		}
+		if n := len(cur.LabelValues); n != len(tuples)-1 {
+			bad = append(bad, fmt.Sprintf("%d label values remain after one deletion from %d", n, len(tuples)))
+		}
+	}
+	return bad
+}
+
 func c08Run(r *runCtx, id string, f []string) {
 	switch f[0] {
+	case "readd":
+		var tuples [][]string
+		for _, t := range f[1:] {
+			tuples = append(tuples, unhxs(t))
+		}
+		bad := c08Readd(tuples)
+		if len(bad) > 0 {
+			r.obs(id, "readd BAD")
+			r.fail(id, "tuple-aliasing", "after the metric is declared again (Store.Add over %d stored tuples): %s", len(tuples), strings.Join(bad, "; "))
+		} else {
+			r.obs(id, "readd ok")
+			r.ok(id)
+		}
+		r.stat("readd")
 	case "conc":
 		t := unhxs(f[1])
 		workers, _ := strconv.Atoi(f[2])
